@@ -495,7 +495,18 @@ def rule_partial(ctx):
                                 for h in a.handlers:
                                     names_ = [norm(h.type)] if h.type is not None and not isinstance(h.type, ast.Tuple) else \
                                         ([norm(e_) for e_ in h.type.elts] if h.type is not None else ['BaseException'])
-                                    if any(nm.split('.')[-1] in ('KeyError', 'IndexError', 'LookupError', 'Exception', 'BaseException') for nm in names_):
+                                    need = ('KeyError', 'IndexError', 'LookupError', 'Exception', 'BaseException')
+                                    # a dict (literal, or a class attribute bound to one) raises KeyError, a tuple / list IndexError
+                                    tbl = x.value
+                                    if isinstance(tbl, ast.Attribute) and isinstance(tbl.value, ast.Name) and tbl.value.id in ('self', 'cls') and f.cls is not None:
+                                        o_, d_ = f.cls.lookup(tbl.attr)
+                                        if d_ is not None and d_[0] == 'value':
+                                            tbl = d_[1]
+                                    if isinstance(tbl, ast.Dict):
+                                        need = ('KeyError', 'LookupError', 'Exception', 'BaseException')
+                                    elif isinstance(tbl, (ast.Tuple, ast.List)):
+                                        need = ('IndexError', 'LookupError', 'Exception', 'BaseException')
+                                    if any(nm.split('.')[-1] in need for nm in names_):
                                         caught = True
                         from sa.cfg import known_at as _known_at
                         tested = _known_at(cfg, n, '%s in %s' % (norm(x.slice), norm(x.value)), True)
